@@ -405,7 +405,7 @@ class FunTerm:
         self._consumed_rest is set."""
         self._consumed_rest = False
         cond = self.tr(st.test)
-        ncond = tm.atom_poly(("not", cond))
+        ncond = tm.mk_not(cond)
         body, orelse = list(st.body), list(st.orelse)
         b_cont = bool(body) and isinstance(body[-1], ast.Continue)
         e_cont = bool(orelse) and isinstance(orelse[-1], ast.Continue)
@@ -518,6 +518,8 @@ class FunTerm:
                 self.env[nm] = OPQ(f"mixed accumulation into {nm}")
                 continue
             op = ops.pop()
+            if op in ("sum", "prod", "seq") and len(contribs) > 1:
+                contribs = _merge_exclusive(contribs)
             if op in ("sum", "prod"):
                 groups: Dict[tuple, tuple] = {}
                 for _, term, conds in contribs:
@@ -527,7 +529,7 @@ class FunTerm:
                         groups[conds] = term
                 total = tm.ZERO if op == "sum" else tm.ONE
                 for conds, body in groups.items():
-                    d = ("filter", dom, tuple(sorted(conds, key=repr))) if conds else dom
+                    d = ("filter", dom, tm.norm_conds(conds)) if conds else dom
                     red = tm.make_reduce(op, body, d, level)
                     total = tm.add(total, red) if op == "sum" else tm.mul(total, red)
                 payload = total
@@ -536,7 +538,7 @@ class FunTerm:
                     self.env[nm] = OPQ(f"several appends to {nm} per iteration")
                     continue
                 _, body, conds = contribs[0]
-                d = ("filter", dom, tuple(sorted(conds, key=repr))) if conds else dom
+                d = ("filter", dom, tm.norm_conds(conds)) if conds else dom
                 a = tm.single_atom(body)
                 payload = tm.atom_poly(("seq", body, d, level))
             else:  # dict entries
@@ -599,6 +601,24 @@ class FunTerm:
         for f in self.frames:
             lv = max(lv, f.level + 1)
         return lv
+
+
+def _merge_exclusive(contribs):
+    """Contributions of the SAME term made on mutually exclusive branches of one iteration (if / elif / else arms)
+    are one contribution under the disjunction of the branch conditions."""
+    out = []
+    for c in contribs:
+        op, body, conds = c
+        merged = False
+        for i, (op2, body2, conds2) in enumerate(out):
+            if op2 == op and body2 == body and conds and conds2 and tm.exclusive(conds, conds2):
+                disj = tm.mk_bool("Or", (tm.mk_bool("And", tuple(conds)), tm.mk_bool("And", tuple(conds2))))
+                out[i] = (op, body, list(tm.norm_conds((disj,))))
+                merged = True
+                break
+        if not merged:
+            out.append(c)
+    return out
 
 
 def _written_names(body) -> set:
